@@ -1137,6 +1137,12 @@ func TestVerifC07(t *testing.T) {
 			if nw > 1 {
 				cuts = append(cuts, cutSpec{k: 0, cut: c07Cut{kind: "c", j: r.Intn(nw - 1), stage: 1 + r.Intn(2)}})
 			}
+			// BETWEEN two WAL checkpoints: j WALs consumed (data.db rewritten, its sidecar still the
+			// pre-reap one), the next one not yet renamed — the state the resume path's input
+			// verification (verifyPlanInputs) must accept
+			for j := 1; j < nw && j <= 3; j++ {
+				cuts = append(cuts, cutSpec{k: 0, cut: c07Cut{kind: "c", j: j, stage: 0}})
+			}
 		}
 		cutsPerShape := cutsPerShapeBase + len(cuts)
 		for len(cuts) < cutsPerShape {
